@@ -67,16 +67,22 @@ func VfC12_FaultSteps() {
 		s.updateClock()
 	}
 	vfReach("C12.step1.survived")
+	faultInStep1 := vfOps >= vfFailAt
+	vfFailAt = -1 // the fault was transient
+	before2 := s.lastAttemptedCompaction
+	ops2 := vfOps
 	s.processUserEvent(UserEvent{LTime: LamportTime(vfU64("elt")), Name: "e"})
 	vfReach("C12.step2.survived")
+	// a recovery compaction that ran in step 2 (after the fault had cleared) must have brought the snapshot back
+	recoveryRan := faultInStep1 && !s.lastAttemptedCompaction.Equal(before2) && vfOps > ops2
 	if vfTier() == 1 {
 		s.processQuery(&Query{LTime: LamportTime(vfU64("qlt")), Name: "q"})
 	}
-	faultHappened := vfOps >= vfFailAt
-	vfFailAt = -1
+	faultHappened := faultInStep1
 	// what the shutdown path does: flush, sync, close
 	healthy := s.buffered != nil && s.fh != nil && s.buffered.Flush() == nil
 	vfAssert("C12.fault.cleared.eventually.healthy", vfImplies(!faultHappened, healthy))
+	vfAssert("C12.recovery.compaction.restores.recording", vfImplies(recoveryRan, healthy))
 	if healthy {
 		vfSnapRestartMatches(s, "C12.resumed")
 	}
